@@ -43,6 +43,7 @@ CONSTANTS MaxH, MaxR,   \* ballots for heights 1..MaxH, rounds 0..MaxR
           Facts,
           MaxOps,       \* bound on the number of calls
           StartAll,     \* TRUE: the box starts at every position (as after SetLastPoint on a fresh box)
+          StartSuf,     \* initial values of "the suffrage is known" ({TRUE}: Learn never fires)
           EvpAny,       \* TRUE: a ballot embeds any voteproof; FALSE: none or one the protocol carries
           WithSetLast,  \* SetLast is part of Next (redundant with StartAll for short behaviours)
           Guard         \* "before": as the code; "filter": the filtered voteproof is taken unchecked
@@ -165,7 +166,7 @@ NoBallot == [n |-> "", k |-> [h |-> 0, r |-> 0, k |-> ""], f |-> "", e |-> Zero]
 Act(a, b, voted) == [a |-> a, b |-> b, voted |-> voted]
 
 Init == /\ box \in {[last |-> l, votes |-> {}, fin |-> {}, suf |-> s, nn |-> NN0, tt |-> T100] :
-                       l \in (IF StartAll THEN Pos \cup {Zero} ELSE {Zero}), s \in BOOLEAN}
+                       l \in (IF StartAll THEN Pos \cup {Zero} ELSE {Zero}), s \in StartSuf}
         /\ ops = 0
         /\ act = Act("Init", NoBallot, FALSE)
 
@@ -203,12 +204,15 @@ LowerBallotRejected ==
 (* a call that does not take the ballot does not move the position *)
 RejectedKeeps == [][(act'.a = "Vote" /\ ~act'.voted) => box'.last = box.last]_vars
 
-(* not vacuous (development / thorough runs, expected to be violated): the box does   *)
-(* move its position by voting, to an embedded and to a counted voteproof, backwards  *)
-(* for a suffrage-confirm result, and a filtered voteproof is refused by the guard     *)
-NeverMovesByVote  == [][~(act'.a = "Vote" /\ box'.last # box.last)]_vars
+(* not vacuous (LastPointVote_vac.cfg, all four expected to be violated; pairwise      *)
+(* disjoint so that TLC -continue reports each): the box does move its position by     *)
+(* counting, backwards by voting (for a suffrage-confirm result), forwards to an        *)
+(* embedded and to a counted voteproof                                                  *)
+Back(a, b) == ~IsZero(a) /\ b.h = a.h /\ LP!Earlier(b, a)
 NeverMovesByCount == [][~(act'.a = "Count" /\ box'.last # box.last)]_vars
-NeverBackByVote   == [][~(act'.a = "Vote" /\ ~IsZero(box.last) /\ box'.last.h = box.last.h
-                           /\ LP!Earlier(box'.last, box.last))]_vars
-NeverCounted      == [][~(act'.a = "Vote" /\ box'.last # box.last /\ box'.last # act'.b.e)]_vars
+NeverBackByVote   == [][~(act'.a = "Vote" /\ Back(box.last, box'.last))]_vars
+NeverToEmbedded   == [][~(act'.a = "Vote" /\ box'.last # box.last /\ ~Back(box.last, box'.last)
+                           /\ box'.last = act'.b.e)]_vars
+NeverToCounted    == [][~(act'.a = "Vote" /\ box'.last # box.last /\ ~Back(box.last, box'.last)
+                           /\ box'.last # act'.b.e)]_vars
 =============================================================================
